@@ -145,6 +145,9 @@ def serialise(outputs, compute_order, real_wire: str | None) -> tuple[str, dict]
     return q, {"nodes": len(out), "kinds": kinds}
 
 
+LAST_FRAGMENT: str | None = None     # of the last answer parsed: 'yes' | 'no reason,reason' | None
+
+
 def parse_answer(ans: str):
     """-> ('same', n, check) | ('differ', k, model stmt, real stmt, check) | ('kernel', wire, check)
           | ('refuse', why) | ('unmodelled', why) | ('error', text)"""
@@ -152,6 +155,11 @@ def parse_answer(ans: str):
         return ("error", ans)
     a = ans[3:]
     chk = None
+    global LAST_FRAGMENT
+    LAST_FRAGMENT = None
+    if "\t#fragment " in a:
+        a, f = a.rsplit("\t#fragment ", 1)
+        LAST_FRAGMENT = f.strip()
     if "\t#check " in a:
         a, c = a.rsplit("\t#check ", 1)
         chk = c.strip() == "yes"
